@@ -248,5 +248,28 @@ pub fn run(r: &mut Runner) -> &'static str {
         None
     };
     r.bulk("c09.set-length-placements", Some("2 constructors x 0..4 writes x every position of a set_length(Some 7|None|0|65535) x 5 second-set_length variants"), &work, &judge);
+    // payloads far beyond the 16-bit range (16 MiB and 32 MiB, plus a little): only a TLV section may be that large in a
+    // single write; without an explicit length build must fail, never emit a length taken modulo some power of two
+    let huge = |shard: usize, nshards: usize, st: &mut Stats, _stop: &std::sync::atomic::AtomicBool| -> Option<(History, Fail)> {
+        let sizes: [usize; 8] = [1 << 24, (1 << 24) + 5, (1 << 24) + 65535, (1 << 24) + 65536, 1 << 25, (1 << 25) + 12, (1 << 20) + 7, 3 << 16];
+        for (i, len) in sizes.iter().enumerate() {
+            if i % nshards != shard {
+                continue;
+            }
+            for explicit in [None, Some(3u16)] {
+                let mut ops = vec![Op::Payload { v: bld::Val::Section { len: *len, seed: 0 }, by_ref: false }];
+                if let Some(x) = explicit {
+                    ops.insert(0, Op::SetLength(Some(x)));
+                    ops.push(Op::SetLength(None));
+                }
+                let h = History { ctor: Ctor::New { vc: 0x21, afp: 0x01 }, ops };
+                if let Err(f) = judge(&h, st) {
+                    return Some((h, f));
+                }
+            }
+        }
+        None
+    };
+    r.bulk("c09.huge-sections", Some("a single TLV-section payload of 3*2^16, 2^20+7, 2^24 (+5, +65535, +65536) and 2^25 (+12) bytes, with no explicit length and with one that is withdrawn before build"), &huge, &judge);
     "exploration"
 }
